@@ -29,3 +29,4 @@ func AssignIfType(err error, target any) bool      { return false }
 func MutexLocked(m *sync.Mutex) bool               { return false }
 func FreshF64(lo, hi float64) float64              { return lo }
 func Advance()                                     {}
+func PickStr(label string, a, b string) string     { return a }
